@@ -3,27 +3,41 @@
     [Print Assumptions].  Model: Kernels/Translate.v, Kernels/ExtractI18n.v
     (the code as fixed by /verif/proposed_fixes/C15). *)
 From LQ Require Import Base.Str Kernels.Translate Kernels.ExtractI18n
-  Proofs.Translate_proofs Proofs.ExtractI18n_proofs.
+  Proofs.Translate_proofs Proofs.ExtractI18n_proofs Proofs.ExtractI18n_cross.
+From LQ Require Kernels.LexUni.
 
-(** Coverage.  For every template of the abstract syntax, all caller data and
-    every [int(str)] function: each catalog call [tc] that a render makes on
-    behalf of a translate tag, or of a translation filter applied to string
-    literals ([tc_lit]), for a non-empty message id, is reported by
-    [extract_from_template] as a tuple with the same function family, message
-    id, plural and context ([m] is the call's message: [mtext_of_call]) and
-    with the line number of the originating tag / expression. *)
-Theorem c15_extraction_covers_lookups :
+(** Coverage.  The full statement — EVERY catalog call of a render is reported
+    by extraction with the same family, ids, plural, context and line — is
+    refuted by the faithful model: a message context or plural operand that is
+    not a string literal is looked up with its run-time value while extraction
+    reports another family or nothing (known findings
+    translate-nonliteral-context, filter-nonliteral-operand). *)
+Theorem c15_extraction_covers_lookups_refuted :
+  uncovered nonliteral_context_template /\ uncovered nonliteral_plural_template.
+Proof. exact extraction_covers_lookups_refuted. Qed.
+Print Assumptions c15_extraction_covers_lookups_refuted.
+
+(** What holds, under the exact guard [tc_lit]: for every template of the
+    abstract syntax, all caller data and every [int(str)] function, each
+    catalog call [tc] that a render makes on behalf of a translate tag whose
+    context is a string literal or absent, or of a translation filter applied
+    to string literals, for a reportable message (anything but gettext("") /
+    pgettext(c, "")), is reported by [extract_from_template] as a tuple with
+    the same function family, message id, plural and context ([m] is the
+    call's message: [mtext_of_call]) and with the line number of the
+    originating tag / expression.  [count] is never restricted. *)
+Theorem c15_extraction_covers_lookups_partial :
   forall (pyint : str -> option Z) (d : data) t ms tc m,
   extract t = Ok ms ->
   In tc (fst (render pyint d t)) ->
   tc_lit tc = true ->
   mtext_of_call (tc_call tc) = Some m ->
-  mtext_id m <> [] ->
+  reportable m = true ->
   exists l cs,
     line_number (t_source t) (tc_pos tc) = Ok l /\
     In {| mt_line := l; mt_msg := m; mt_comments := cs |} ms.
 Proof. exact extraction_covers_lookups. Qed.
-Print Assumptions c15_extraction_covers_lookups.
+Print Assumptions c15_extraction_covers_lookups_partial.
 
 (** The mechanism behind it, per filter: what [__call__] asks the catalog for
     a literal operand is what [message()] reports ... *)
@@ -41,13 +55,14 @@ Theorem c15_translate_call_is_reported_message :
   forall (pyint : str -> option Z) (d : data) args sing plural c,
   tr_call pyint d args sing plural = Ok c ->
   tr_literal args = true ->
-  mb_parts sing <> [] ->
+  (mb_parts sing <> [] \/ plural <> None) ->
   exists m, tr_messages args sing plural = Some m /\ mtext_of_call c = Some m.
 Proof. exact tr_call_literal. Qed.
 Print Assumptions c15_translate_call_is_reported_message.
 
-(** The guard on the message id cannot be dropped: a translate tag with an
-    empty block looks up the id "" and nothing is extracted for it. *)
+(** The guard [reportable] cannot be dropped: a translate tag with an empty
+    block and no plural block looks up the id "" (the catalog header) and
+    nothing is extracted for it. *)
 Theorem c15_empty_id_lookup_not_extracted :
   exists t tc,
     In tc (fst (render (fun _ => None) [] t)) /\ tc_lit tc = true /\
@@ -106,3 +121,16 @@ Theorem c15_line_number_total : forall src pos,
   exists l, line_number src pos = Ok l /\ (1 <= l)%N.
 Proof. exact line_number_total. Qed.
 Print Assumptions c15_line_number_total.
+
+(** Cross-model: "line" is the engine's convention — the [str.splitlines]
+    boundary set — and it is the same set in message extraction and in the
+    lexer / error-context kernels (C17, C02); likewise the whitespace set. *)
+Theorem c15_linebreaks_are_the_lexers : forall c,
+  ExtractI18n.is_linebreak c = LexUni.is_linebreak c.
+Proof. exact is_linebreak_eq_LexUni. Qed.
+Print Assumptions c15_linebreaks_are_the_lexers.
+
+Theorem c15_whitespace_is_the_lexers : forall c,
+  Translate.is_space c = LexUni.is_space c.
+Proof. exact is_space_eq_LexUni. Qed.
+Print Assumptions c15_whitespace_is_the_lexers.
